@@ -16,7 +16,7 @@ import onnx
 from onnx import TensorProto as TP
 from onnx import helper as oh
 
-BASES = ["plain", "subgraph", "function"]
+BASES = ["plain", "subgraph", "function", "nobait"]
 
 F = TP.FLOAT
 
@@ -249,7 +249,8 @@ class Ctx:
         raise KeyError(which)
 
 
-ALLB = ("plain", "subgraph", "function")
+ALLB = ("plain", "subgraph", "function", "nobait")
+WITHQ = ("plain", "subgraph", "function")   # bases that contain the custom call node q
 CARRIERS = {}
 
 
@@ -288,7 +289,7 @@ def _(c): c.g.input[0].doc_string = "input doc"
 def _(c): c.g.output[0].doc_string = "output doc"
 @carrier("doc_string.initializer")
 def _(c): c.g.initializer[0].doc_string = "initializer doc"
-@carrier("doc_string.attribute")
+@carrier("doc_string.attribute", WITHQ)
 def _(c): c.node("q").attribute[0].doc_string = "attribute doc"
 @carrier("doc_string.function", ("function",))
 def _(c): c.fn().doc_string = "function doc"
@@ -435,13 +436,13 @@ def _(c):
     qa = c.g.quantization_annotation.add()
     qa.tensor_name = "w"
     e = qa.quant_parameter_tensor_names.add(); e.key = "SCALE_TENSOR"; e.value = "w"
-@carrier("attribute.tensor_in_node")   # a tensor attribute with typed storage inside a kept node
+@carrier("attribute.tensor_in_node", WITHQ)   # a tensor attribute with typed storage inside a kept node
 def _(c):
     a = c.node("q").attribute.add()
     a.name = "payload"
     a.type = onnx.AttributeProto.TENSOR
     a.t.CopyFrom(init_tensor("BFLOAT16", "nan", "typed", name="attr_t"))
-@carrier("attribute.kinds")            # one attribute of every scalar/list kind on a kept node
+@carrier("attribute.kinds", WITHQ)            # one attribute of every scalar/list kind on a kept node
 def _(c):
     n = c.node("q")
     n.attribute.append(oh.make_attribute("a_f", float.fromhex("0x1.000002p-126")))
@@ -449,7 +450,7 @@ def _(c):
     n.attribute.append(oh.make_attribute("a_is", [-(1 << 63), (1 << 63) - 1]))
     n.attribute.append(oh.make_attribute("a_ss", ["", "☃"]))
     n.attribute.append(oh.make_attribute("a_e_ints", [], attr_type=onnx.AttributeProto.INTS))
-@carrier("attribute.type_proto")
+@carrier("attribute.type_proto", WITHQ)
 def _(c):
     c.node("q").attribute.append(oh.make_attribute("a_tp", oh.make_tensor_type_proto(TP.BFLOAT16, ["N", 3])))
 
@@ -488,25 +489,32 @@ def build(base, carriers, init):
         # KEEP region
         oh.make_node("Mul", ["x", "w"], ["t"]),
         oh.make_node("Sub", ["t", "y"], ["u"]),
-        # BAIT: foldable expression
-        oh.make_node("Constant", [], ["c1"], value=oh.make_tensor("c1v", F, [2, 3], [2.0] * 6)),
-        oh.make_node("Constant", [], ["c2"], value=oh.make_tensor("c2v", F, [2, 3], [3.0] * 6)),
-        oh.make_node("Add", ["c1", "c2"], ["f"]),
-        oh.make_node("Pow", ["x", "f"], ["v"]),
-        # BAIT: dead node
-        oh.make_node("Neg", ["x"], ["d"]),
-        # BAIT: default rewrite rules (x+0) and the custom rule Abs(Abs(a)) -> Abs(a)
-        oh.make_node("Constant", [], ["z0"], value=oh.make_tensor("z0v", F, [], [0.0])),
-        oh.make_node("Add", ["y", "z0"], ["nz"]),
-        oh.make_node("Abs", ["nz"], ["o2a"]),
-        oh.make_node("Abs", ["o2a"], ["o2"]),
-        # call of an op that only replace_functions knows how to expand
-        oh.make_node("MyOp", ["x"], ["q"], domain="custom.dom", mode="fast"),
     ]
     inputs = [oh.make_tensor_value_info("x", F, [2, 3]), oh.make_tensor_value_info("y", F, [2, 3])]
-    outputs = [oh.make_tensor_value_info(n, F, [2, 3]) for n in ("u", "v", "o2", "q")]
     functions = []
-    opsets = [oh.make_opsetid("", opset), oh.make_opsetid("custom.dom", 1)]
+    if base == "nobait":
+        # nothing for any API to do: every transformation is the identity here
+        outputs = [oh.make_tensor_value_info("u", F, [2, 3])]
+        opsets = [oh.make_opsetid("", opset)]
+    else:
+        nodes += [
+            # BAIT: foldable expression
+            oh.make_node("Constant", [], ["c1"], value=oh.make_tensor("c1v", F, [2, 3], [2.0] * 6)),
+            oh.make_node("Constant", [], ["c2"], value=oh.make_tensor("c2v", F, [2, 3], [3.0] * 6)),
+            oh.make_node("Add", ["c1", "c2"], ["f"]),
+            oh.make_node("Pow", ["x", "f"], ["v"]),
+            # BAIT: dead node
+            oh.make_node("Neg", ["x"], ["d"]),
+            # BAIT: default rewrite rules (x+0) and the custom rule Abs(Abs(a)) -> Abs(a)
+            oh.make_node("Constant", [], ["z0"], value=oh.make_tensor("z0v", F, [], [0.0])),
+            oh.make_node("Add", ["y", "z0"], ["nz"]),
+            oh.make_node("Abs", ["nz"], ["o2a"]),
+            oh.make_node("Abs", ["o2a"], ["o2"]),
+            # call of an op that only replace_functions knows how to expand
+            oh.make_node("MyOp", ["x"], ["q"], domain="custom.dom", mode="fast"),
+        ]
+        outputs = [oh.make_tensor_value_info(n, F, [2, 3]) for n in ("u", "v", "o2", "q")]
+        opsets = [oh.make_opsetid("", opset), oh.make_opsetid("custom.dom", 1)]
     if base == "subgraph":
         inputs.append(oh.make_tensor_value_info("c", TP.BOOL, []))
         then_g = oh.make_graph([oh.make_node("Div", ["x", "w"], ["tb"])], "then_graph", [],
